@@ -671,18 +671,21 @@ impl FileStateMachine {
                                 if let Some(ref lease) = replay_lease {
                                     let expire_at = std::time::UNIX_EPOCH
                                         + std::time::Duration::from_secs(secs);
+                                    // Not expired (checked above), so the TTL must be
+                                    // restored even when less than a whole second is left;
+                                    // truncating that to 0 and skipping the registration
+                                    // would leave the key without any expiry.
                                     let remaining = expire_at
                                         .duration_since(now)
                                         .map(|d| d.as_secs())
-                                        .unwrap_or(0);
+                                        .unwrap_or(0)
+                                        .max(1);
 
-                                    if remaining > 0 {
-                                        lease.register(key.clone(), remaining);
-                                        debug!(
-                                            "Replayed INSERT with TTL: key={:?}, remaining={}s",
-                                            key, remaining
-                                        );
-                                    }
+                                    lease.register(key.clone(), remaining);
+                                    debug!(
+                                        "Replayed INSERT with TTL: key={:?}, remaining={}s",
+                                        key, remaining
+                                    );
                                 }
                             } else {
                                 if let Some(ref lease) = replay_lease {
